@@ -32,6 +32,8 @@ CHECKS = {
          'For every explored full iteration of SCAN/HSCAN/SSCAN/ZSCAN (all COUNTs from 1, MATCH, TYPE, interleaved modifications) the union of returned elements contains every element present and matching throughout, contains nothing that never existed, and the iteration terminates.'),
  'C20': ('model_checking', 'TLC model checking of a TLA+ transcription of RespParser (spec/impl/ImplParser.tla: totality, prefix stability => chunking independence, for all byte strings over a 17-symbol alphabet up to length 5/6) + the same enumeration, frame trees, absurd lengths and deep nesting run through the real parser/serializer in a child process (fvh codec, counting allocator) + TLC validation of the recorded results against Ser (spec/RespCodec.tla, CodecTrace.tla)',
          'Round trip through the real serializer and parser equals the TLA+ Ser for every enumerated frame tree; for every enumerated byte string the real parser is total, gives the same frames/errors for every chunking, and its peak allocation is bounded by the bytes received.'),
+ 'C11': ('model_checking', 'TLC trace validation of the redo-log relation (spec/Ferrous.tla AofApply/AofStep): after every request the frames appended to the real AOF, re-executed with the reference semantics, must deterministically reproduce the live dataset; plus re-execution of the whole file on an empty real server with dump comparison',
+         'For every explored history (all value types, direct and MULTI/EXEC, several databases) the AOF consists of complete frames after every request and replays, request by request and as a whole on a real empty server, to the live dataset (values; TTL presence); an entry whose replay is not deterministic is rejected.'),
 }
 NOT_YET = {}
 
